@@ -21,7 +21,7 @@ fn cfgs(id: &str, quick: bool) -> Vec<(&'static str, Cfg, u8)> {
                 (
                     "create-conflicts",
                     Cfg { replicas: 2, slots: vec![0, 2], names: 2, disp: false, rename: false, lifecycle: true, revive: false, members: true, refresh: false, aging: false, max_repl: 1, precreate: vec![], same_time: false, props: props(&["C08"]) },
-                    if quick { 3 } else { 4 },
+                    if quick { 2 } else { 4 },
                 ),
             ];
             if !quick {
@@ -42,19 +42,19 @@ fn cfgs(id: &str, quick: bool) -> Vec<(&'static str, Cfg, u8)> {
             (
                 "names-two-replicas",
                 Cfg { replicas: 2, slots: vec![0, 1], names: 2, disp: false, rename: true, lifecycle: true, revive: true, members: false, refresh: false, aging: false, max_repl: 1, precreate: vec![], same_time: false, props: props(&["C19"]) },
-                if quick { 3 } else { 4 },
+                if quick { 2 } else { 4 },
             ),
         ],
         _ => vec![
             (
                 "delete-vs-edit",
                 Cfg { replicas: 2, slots: vec![0], names: 1, disp: true, rename: false, lifecycle: true, revive: false, members: false, refresh: false, aging: false, max_repl: 2, precreate: vec![0], same_time: false, props: props(&["C09"]) },
-                if quick { 3 } else { 4 },
+                if quick { 2 } else { 4 },
             ),
             (
                 "aging",
                 Cfg { replicas: 2, slots: vec![0], names: 1, disp: false, rename: false, lifecycle: true, revive: false, members: false, refresh: false, aging: true, max_repl: 2, precreate: vec![0], same_time: false, props: props(&["C09"]) },
-                if quick { 3 } else { 5 },
+                if quick { 2 } else { 5 },
             ),
         ],
     }
@@ -67,6 +67,20 @@ pub fn run(id: &'static str, args: &[String]) -> ! {
 
     if let Some(r) = ctx.replay.clone() {
         let name = r["case"]["world"].as_str().unwrap_or("");
+        if name == "dir-single" {
+            let (cfg, _) = super::dirchecks::cfg_for(id, quick);
+            let mut w = crate::worlds::dir::Dir::new(cfg);
+            match forkdfs::replay(&mut w, &r["case"]["trace"]) {
+                Ok(v) => {
+                    for (k, what) in v {
+                        println!("{k}: {what}");
+                        ctx.violation(&k, &what, r["case"].clone());
+                    }
+                }
+                Err(e) => ctx.machinery_error(e),
+            }
+            ctx.finish();
+        }
         let Some((_, cfg, _)) = all.iter().find(|c| c.0 == name) else {
             kv_engine::ctx::machinery_exit("replay names an unknown world")
         };
@@ -85,18 +99,31 @@ pub fn run(id: &'static str, args: &[String]) -> ! {
 
     let mut worlds = Vec::new();
     let mut capped = false;
-    let budget = if quick { 50.0 } else { 1500.0 } / all.len() as f64;
+    if id == "C19" {
+        // single-server part: duplicates arriving in one request or in separate transactions
+        let (cfg, depth) = super::dirchecks::cfg_for(id, quick);
+        let depth = if quick { 2 } else { depth };
+        let mut w = crate::worlds::dir::Dir::new(cfg.clone());
+        let opts = Opts { depth, procs: 2, deadline_s: if quick { 20.0 } else { 600.0 }, log2_slots: 22, dedup: true, max_samples: 3, par_depth: 1 };
+        let rep = forkdfs::run_into_ctx(&mut ctx, &mut w, &opts, "dir-single");
+        capped |= rep.capped;
+        worlds.push(json!({"world": "dir-single", "depth": depth, "replicas": 1, "slots": cfg.slots, "states": rep.states, "transitions": rep.transitions, "outcomes": rep.outcomes.keys().collect::<Vec<_>>(), "complete": !rep.capped,
+            "alphabet": {"names": cfg.names, "create_rename_delete_revive": true}}));
+    }
+    let budget = if quick { 45.0 } else { 1500.0 } / all.len() as f64;
     for (name, cfg, depth) in &all {
         let depth = ctx.opt_u64("depth").map(|d| d as u8).unwrap_or(*depth);
         let mut w = Repl::new(cfg.clone());
         let opts = Opts {
             depth,
-            procs: ctx.opt_u64("procs").map(|p| p as usize).unwrap_or_else(kv_engine::product::ncpu),
+            // fork / copy-on-write faults do not scale across cores in this sandbox (measured: 1, 2,
+            // 4, 8 processes give the same wall time), so the search runs nearly sequentially
+            procs: ctx.opt_u64("procs").map(|p| p as usize).unwrap_or(2),
             deadline_s: budget,
             log2_slots: 22,
             dedup: true,
             max_samples: 3,
-            par_depth: 1,
+            par_depth: ctx.opt_u64("par_depth").map(|p| p as usize).unwrap_or(1),
         };
         let rep = forkdfs::run_into_ctx(&mut ctx, &mut w, &opts, name);
         capped |= rep.capped;
